@@ -1071,8 +1071,14 @@ func ruleNoRelocate(p *Program, r *Reporter) {
 				n++
 				nth[p.FnName(fn)]++
 				key := fmt.Sprintf("%s/store %d into the instruction buffer keeps every instruction at the offset it was emitted at", p.FnName(fn), nth[p.FnName(fn)])
+				isEmitter := false
+				for _, part := range emitterParts(a) {
+					if top(fn) == part {
+						isEmitter = true
+					}
+				}
 				switch {
-				case top(fn) == a.emit:
+				case isEmitter:
 					r.OkNT(key, p.Pos(st.Pos()), "the emitter appends the instruction it encodes")
 				case emptyBuffer(st.Val):
 					r.OkNT(key, p.Pos(st.Pos()), "a fresh empty buffer")
@@ -1505,16 +1511,29 @@ func init() {
 }
 
 func ruleKindReach(p *Program, r *Reporter) {
-	var conv *ssa.Function
+	// the parts of the kind switch: functions of the machine from a reflected
+	// value to an object that compare the kind of their parameter
+	parts := map[*ssa.Function]bool{}
 	for _, fn := range p.LibFns {
-		if fnPkg(fn).Pkg.Path() != Mod+"/vm" || fn.Parent() != nil {
+		if fnPkg(fn).Pkg.Path() != Mod+"/vm" || fn.Parent() != nil || len(fn.Blocks) == 0 {
 			continue
 		}
 		ps, rs := sigParams(fn), sigResults(fn)
 		if len(ps) != 1 || !isStdNamed(ps[0], "reflect", "Value") || len(rs) != 1 || !isObjectIface(rs[0]) {
 			continue
 		}
-		// it compares the kind of its parameter with several constants
+		for _, b := range fn.Blocks {
+			for _, ins := range b.Instrs {
+				if bo, ok := ins.(*ssa.BinOp); ok && bo.Op == token.EQL && isStdNamed(bo.X.Type(), "reflect", "Kind") {
+					parts[fn] = true
+				}
+			}
+		}
+	}
+	// the entry: the part that functions which are not parts call
+	var conv *ssa.Function
+	total := 0
+	for fn := range parts {
 		n := 0
 		for _, b := range fn.Blocks {
 			for _, ins := range b.Instrs {
@@ -1523,11 +1542,18 @@ func ruleKindReach(p *Program, r *Reporter) {
 				}
 			}
 		}
-		if n >= 6 {
+		total += n
+		outside := false
+		for _, s := range staticCallSites(p, fn) {
+			if !parts[top(s.Parent())] {
+				outside = true
+			}
+		}
+		if outside && (conv == nil || p.FnName(fn) < p.FnName(conv)) {
 			conv = fn
 		}
 	}
-	if conv == nil {
+	if conv == nil || total < 6 {
 		r.Undecided("kind switch", "-", "cannot find the function that switches on the kind of a host value")
 		return
 	}
@@ -1548,15 +1574,6 @@ func ruleKindReach(p *Program, r *Reporter) {
 		}
 		return constant.Int64Val(c.Val())
 	}
-	param := conv.Params[len(conv.Params)-1]
-	isCallOn := func(v ssa.Value, name string) bool {
-		c, ok := v.(*ssa.Call)
-		if !ok || c.Call.StaticCallee() == nil {
-			return false
-		}
-		f := c.Call.StaticCallee()
-		return f.Pkg != nil && f.Pkg.Pkg.Path() == "reflect" && f.Name() == name && len(c.Call.Args) > 0 && c.Call.Args[0] == ssa.Value(param)
-	}
 	freshNull := func(v ssa.Value) bool {
 		mi, ok := v.(*ssa.MakeInterface)
 		if !ok {
@@ -1565,6 +1582,11 @@ func ruleKindReach(p *Program, r *Reporter) {
 		al, ok := mi.X.(*ssa.Alloc)
 		return ok && objectStructName(al.Type()) == "Null"
 	}
+	const (
+		outConverted = 1 << iota
+		outNil
+		outNull
+	)
 	kinds := []string{"Int", "Int8", "Int16", "Int32", "Int64", "Uint8", "Uint16", "Uint32", "Float32", "Float64", "String", "Bool", "Slice", "Map"}
 	for _, kn := range kinds {
 		kv, ok := kindVal(kn)
@@ -1574,146 +1596,204 @@ func ruleKindReach(p *Program, r *Reporter) {
 		key := "host kind " + kn + "/no value of the kind ends as a freshly made null"
 		steps := 0
 		var badPos token.Pos
-		bad := false
-		var walk func(b, from *ssa.BasicBlock, env map[*ssa.Phi]ssa.Value)
-		resolve := func(v ssa.Value, env map[*ssa.Phi]ssa.Value) ssa.Value {
-			for i := 0; i < 8; i++ {
+		// outcomes(fn): what fn can return for a valid value of this kind
+		memo := map[*ssa.Function]int{}
+		inProgress := map[*ssa.Function]bool{}
+		var outcomes func(fn *ssa.Function) int
+		outcomes = func(fn *ssa.Function) int {
+			if o, ok := memo[fn]; ok {
+				return o
+			}
+			if inProgress[fn] {
+				return outConverted
+			}
+			inProgress[fn] = true
+			defer func() { inProgress[fn] = false }()
+			param := fn.Params[len(fn.Params)-1]
+			isCallOn := func(v ssa.Value, name string) bool {
+				c, ok := v.(*ssa.Call)
+				if !ok || c.Call.StaticCallee() == nil {
+					return false
+				}
+				f := c.Call.StaticCallee()
+				return f.Pkg != nil && f.Pkg.Pkg.Path() == "reflect" && f.Name() == name && len(c.Call.Args) > 0 && c.Call.Args[0] == ssa.Value(param)
+			}
+			// a call of another part of the switch with the same value
+			partCall := func(v ssa.Value) (*ssa.Function, bool) {
+				c, ok := v.(*ssa.Call)
+				if !ok || c.Call.StaticCallee() == nil || !parts[c.Call.StaticCallee()] {
+					return nil, false
+				}
+				args := c.Call.Args
+				if len(args) == 0 || args[len(args)-1] != ssa.Value(param) {
+					return nil, false
+				}
+				return c.Call.StaticCallee(), true
+			}
+			resolve := func(v ssa.Value, env map[*ssa.Phi]ssa.Value) ssa.Value {
+				for i := 0; i < 8; i++ {
+					if x, ok := v.(*ssa.Phi); ok {
+						if e, ok := env[x]; ok {
+							v = e
+							continue
+						}
+					}
+					break
+				}
+				return v
+			}
+			var truth func(v ssa.Value, env map[*ssa.Phi]ssa.Value) int
+			truth = func(v ssa.Value, env map[*ssa.Phi]ssa.Value) int {
+				v = resolve(v, env)
 				switch x := v.(type) {
-				case *ssa.Phi:
-					if e, ok := env[x]; ok {
-						v = e
-						continue
+				case *ssa.Const:
+					if x.Value != nil && x.Value.Kind() == constant.Bool {
+						if constant.BoolVal(x.Value) {
+							return 1
+						}
+						return 0
 					}
 				case *ssa.UnOp:
-					// a load of the result variable: the last store on this path is not
-					// tracked — left unresolved
-				}
-				break
-			}
-			return v
-		}
-		// tri: 1 true, 0 false, -1 unknown
-		var truth func(v ssa.Value, env map[*ssa.Phi]ssa.Value) int
-		truth = func(v ssa.Value, env map[*ssa.Phi]ssa.Value) int {
-			v = resolve(v, env)
-			switch x := v.(type) {
-			case *ssa.Const:
-				if x.Value != nil && x.Value.Kind() == constant.Bool {
-					if constant.BoolVal(x.Value) {
+					if x.Op == token.NOT {
+						if t := truth(x.X, env); t >= 0 {
+							return 1 - t
+						}
+					}
+				case *ssa.Call:
+					if isCallOn(x, "IsValid") {
 						return 1
 					}
-					return 0
-				}
-			case *ssa.UnOp:
-				if x.Op == token.NOT {
-					if t := truth(x.X, env); t >= 0 {
-						return 1 - t
+				case *ssa.BinOp:
+					if x.Op != token.EQL && x.Op != token.NEQ {
+						return -1
 					}
-				}
-			case *ssa.Call:
-				if isCallOn(x, "IsValid") {
-					return 1
-				}
-			case *ssa.BinOp:
-				if x.Op != token.EQL && x.Op != token.NEQ {
-					return -1
-				}
-				res := -1
-				l, rr := resolve(x.X, env), resolve(x.Y, env)
-				if isCallOn(l, "Kind") {
-					if k, ok := rr.(*ssa.Const); ok {
-						if i, ok := constantInt64(k); ok {
+					res := -1
+					l, rr := resolve(x.X, env), resolve(x.Y, env)
+					if isCallOn(l, "Kind") {
+						if k, ok := rr.(*ssa.Const); ok {
+							if i, ok := constantInt64(k); ok {
+								res = 0
+								if i == kv {
+									res = 1
+								}
+							}
+						}
+					} else if k, ok := rr.(*ssa.Const); ok && k.IsNil() {
+						switch y := l.(type) {
+						case *ssa.MakeInterface:
 							res = 0
-							if i == kv {
+						case *ssa.Call:
+							if g, ok := partCall(y); ok {
+								switch o := outcomes(g); {
+								case o&outNil == 0:
+									res = 0
+								case o == outNil:
+									res = 1
+								}
+							} else if f := y.Call.StaticCallee(); f != nil && fnPkg(f) != nil && IsLibPath(fnPkg(f).Pkg.Path()) {
+								if rs := sigResults(f); len(rs) == 1 && isObjectIface(rs[0]) {
+									res = 0 // R-NONNIL: no conversion function of the module yields nil unannounced
+								}
+							}
+						case *ssa.Const:
+							if y.IsNil() {
 								res = 1
 							}
 						}
 					}
-				} else if k, ok := rr.(*ssa.Const); ok && k.IsNil() {
-					switch y := l.(type) {
-					case *ssa.MakeInterface:
-						res = 0
-					case *ssa.Call:
-						if f := y.Call.StaticCallee(); f != nil && fnPkg(f) != nil && IsLibPath(fnPkg(f).Pkg.Path()) {
-							if rs := sigResults(f); len(rs) == 1 && isObjectIface(rs[0]) {
-								res = 0 // R-NONNIL: no conversion function of the module yields nil
+					if res >= 0 && x.Op == token.NEQ {
+						res = 1 - res
+					}
+					return res
+				}
+				return -1
+			}
+			out := 0
+			var walk func(b, from *ssa.BasicBlock, env map[*ssa.Phi]ssa.Value)
+			walk = func(b, from *ssa.BasicBlock, env map[*ssa.Phi]ssa.Value) {
+				steps++
+				if steps > 20000 {
+					return
+				}
+				local := env
+				copied := false
+				for _, ins := range b.Instrs {
+					phi, ok := ins.(*ssa.Phi)
+					if !ok {
+						break
+					}
+					if from == nil {
+						continue
+					}
+					for i, pb := range b.Preds {
+						if pb == from {
+							if !copied {
+								local = map[*ssa.Phi]ssa.Value{}
+								for k, v := range env {
+									local[k] = v
+								}
+								copied = true
+							}
+							local[phi] = resolve(phi.Edges[i], env)
+						}
+					}
+				}
+				switch t := terminator(b).(type) {
+				case *ssa.Return:
+					if len(t.Results) == 1 {
+						v := resolve(returnOperand(t, 0), local)
+						switch {
+						case freshNull(v):
+							out |= outNull
+							if fn == conv && !badPos.IsValid() {
+								badPos = t.Pos()
+							}
+						default:
+							if k, ok := v.(*ssa.Const); ok && k.IsNil() {
+								out |= outNil
+								if fn == conv && !badPos.IsValid() {
+									badPos = t.Pos()
+								}
+							} else if c, ok := v.(*ssa.Call); ok {
+								if g, ok := partCall(c); ok {
+									out |= outcomes(g)
+								} else {
+									out |= outConverted
+								}
+							} else {
+								out |= outConverted
 							}
 						}
-					case *ssa.Const:
-						if y.IsNil() {
-							res = 1
-						}
 					}
+					return
+				case *ssa.If:
+					switch truth(t.Cond, local) {
+					case 1:
+						walk(b.Succs[0], b, local)
+					case 0:
+						walk(b.Succs[1], b, local)
+					default:
+						walk(b.Succs[0], b, local)
+						walk(b.Succs[1], b, local)
+					}
+					return
 				}
-				if res >= 0 && x.Op == token.NEQ {
-					res = 1 - res
+				for _, s := range b.Succs {
+					walk(s, b, local)
 				}
-				return res
 			}
-			return -1
+			walk(fn.Blocks[0], nil, map[*ssa.Phi]ssa.Value{})
+			memo[fn] = out
+			return out
 		}
-		walk = func(b, from *ssa.BasicBlock, env map[*ssa.Phi]ssa.Value) {
-			steps++
-			if bad || steps > 20000 {
-				return
-			}
-			// φ-nodes take the value of the edge we came in by
-			local := env
-			copied := false
-			for _, ins := range b.Instrs {
-				phi, ok := ins.(*ssa.Phi)
-				if !ok {
-					break
-				}
-				if from == nil {
-					continue
-				}
-				for i, pb := range b.Preds {
-					if pb == from {
-						if !copied {
-							local = map[*ssa.Phi]ssa.Value{}
-							for k, v := range env {
-								local[k] = v
-							}
-							copied = true
-						}
-						local[phi] = resolve(phi.Edges[i], env)
-					}
-				}
-			}
-			switch t := terminator(b).(type) {
-			case *ssa.Return:
-				if len(t.Results) == 1 {
-					v := resolve(returnOperand(t, 0), local)
-					if freshNull(v) {
-						bad, badPos = true, t.Pos()
-					}
-				}
-				return
-			case *ssa.If:
-				switch truth(t.Cond, local) {
-				case 1:
-					walk(b.Succs[0], b, local)
-				case 0:
-					walk(b.Succs[1], b, local)
-				default:
-					walk(b.Succs[0], b, local)
-					walk(b.Succs[1], b, local)
-				}
-				return
-			}
-			for _, s := range b.Succs {
-				walk(s, b, local)
-			}
-		}
-		walk(conv.Blocks[0], nil, map[*ssa.Phi]ssa.Value{})
+		o := outcomes(conv)
 		switch {
 		case steps > 20000:
 			r.Undecided(key, p.Pos(conv.Pos()), "too many paths to enumerate")
-		case bad:
-			r.Fail(key, p.Pos(posOr(badPos, conv.Pos())), "for a host value of kind "+kn+" there is a path through "+p.FnName(conv)+" that returns a freshly made null although the kind is one the engine represents: the value decides whether the field is converted — a slice or map that was never allocated arrives as null, so len() of it is 4 (the length of the text \"null\") and foreach over it fails, where the empty array / hash was due")
+		case o&(outNull|outNil) != 0:
+			r.Fail(key, p.Pos(posOr(badPos, conv.Pos())), "for a host value of kind "+kn+" there is a path through "+p.FnName(conv)+" that ends in a freshly made null (or in no object at all) although the kind is one the engine represents: the value decides whether the field is converted — a slice or map that was never allocated arrives as null, so len() of it is 4 (the length of the text \"null\") and foreach over it fails, where the empty array / hash was due")
 		default:
-			r.OkNT(key, p.Pos(conv.Pos()), fmt.Sprintf("%d step(s) of the path-sensitive walk; every return is the converted value", steps))
+			r.OkNT(key, p.Pos(conv.Pos()), fmt.Sprintf("%d step(s) of the path-sensitive walk over %d part(s) of the switch; every return is the converted value", steps, len(parts)))
 		}
 	}
 }
@@ -1877,6 +1957,15 @@ func charLoops(p *Program, adv *ssa.Function) []charLoop {
 					switch t := terminator(b).(type) {
 					case *ssa.If:
 						v, ok := evalVal(t.Cond, env, 0)
+						if !ok && c != 0 {
+							// a test of the position against the end of the input: a
+							// current character other than the sentinel is not past the
+							// end (R-EOFSENTINEL / R-LEXPROGRESS: past the end the
+							// character is the sentinel)
+							if endMeansTrue, isEnd := positionEndTest(t.Cond); isEnd {
+								v, ok = constant.MakeBool(!endMeansTrue), true
+							}
+						}
 						if !ok || v.Kind() != constant.Bool {
 							return false, false
 						}
@@ -2076,4 +2165,254 @@ func ruleIdentStart(p *Program, r *Reporter) {
 	default:
 		r.OkNT(key, p.Pos(reader.fn.Pos()), fmt.Sprintf("%d code point(s) continue a name; NextToken reaches the reader for each of them", cont))
 	}
+}
+
+// ---------------------------------------------------------------------------
+// R-OPTGATED
+
+func init() {
+	register(&Rule{ID: "R-OPTGATED", Floor: 1, Run: ruleOptGated,
+		Text: "The optimizer runs only when it is switched on: every call that reaches a function of the machine which rewrites bytecode in place (stores into an element of the machine's bytecode) from a function that does not is made under the test of the optimizer switch — the presence of the variable that Prepare sets unless NoOptimize was given — or from a helper all of whose callers are.  NoOptimize means the main program *and* every function body run as they were compiled."})
+}
+
+func ruleOptGated(p *Program, r *Reporter) {
+	a := needAnchors(p, r)
+	if a == nil || a.vmNew == nil {
+		return
+	}
+	// the rewriters: functions of the machine that store into an element of VM.bytecode
+	rewriter := map[*ssa.Function]bool{}
+	for _, fn := range p.LibFns {
+		if fnPkg(fn).Pkg.Path() != Mod+"/vm" {
+			continue
+		}
+		for _, b := range fn.Blocks {
+			for _, ins := range b.Instrs {
+				st, ok := ins.(*ssa.Store)
+				if !ok {
+					continue
+				}
+				ia, ok := st.Addr.(*ssa.IndexAddr)
+				if !ok {
+					continue
+				}
+				if ld, ok := ia.X.(*ssa.UnOp); ok && ld.Op == token.MUL && fieldKey(ld.X) == "vm.VM.bytecode" {
+					rewriter[top(fn)] = true
+				}
+			}
+		}
+	}
+	if len(rewriter) == 0 {
+		r.Undecided("optimizer passes", "-", "no function of the machine stores into an element of its bytecode")
+		return
+	}
+	// the switch: Get(<name>) on an Environment, second result
+	isSwitchTest := func(v ssa.Value) bool {
+		ex, ok := v.(*ssa.Extract)
+		if !ok || ex.Index != 1 {
+			return false
+		}
+		c, ok := ex.Tuple.(*ssa.Call)
+		if !ok || c.Call.StaticCallee() == nil || !recvNamed(c.Call.StaticCallee(), "environment", "Environment") {
+			return false
+		}
+		for _, arg := range c.Call.Args {
+			if k, ok := arg.(*ssa.Const); ok && k.Value != nil && k.Value.Kind() == constant.String && constant.StringVal(k.Value) == optimizerSwitchName(p, a) {
+				return true
+			}
+		}
+		return false
+	}
+	var gatedAt func(ins ssa.Instruction, depth int) bool
+	gatedAt = func(ins ssa.Instruction, depth int) bool {
+		b := ins.Block()
+		fn := b.Parent()
+		for _, x := range fn.Blocks {
+			iff, ok := terminator(x).(*ssa.If)
+			if !ok || len(x.Succs) != 2 {
+				continue
+			}
+			cond := iff.Cond
+			// a parameter that carries the switch: what every caller passes
+			if isSwitchTest(cond) || switchCarried(p, cond, isSwitchTest, 0) {
+				if s := x.Succs[0]; len(s.Preds) == 1 && s.Dominates(b) {
+					return true
+				}
+			}
+		}
+		if depth > 3 || fn == a.vmNew {
+			return false
+		}
+		sites := staticCallSites(p, top(fn))
+		if len(sites) == 0 {
+			return false
+		}
+		for _, s := range sites {
+			if !gatedAt(s, depth+1) {
+				return false
+			}
+		}
+		return true
+	}
+	n := 0
+	for _, fn := range p.LibFns {
+		if fnPkg(fn).Pkg.Path() != Mod+"/vm" && fnPkg(fn).Pkg.Path() != Mod {
+			continue
+		}
+		if rewriter[top(fn)] {
+			continue
+		}
+		nth := 0
+		for _, b := range fn.Blocks {
+			for _, ins := range b.Instrs {
+				cc := callOf(ins)
+				if cc == nil || cc.StaticCallee() == nil {
+					continue
+				}
+				// an entry: a pass that rewrites, called by a function that does not
+				if !rewriter[top(cc.StaticCallee())] {
+					continue
+				}
+				n++
+				nth++
+				key := fmt.Sprintf("%s/call %d into the optimizer is made only when it is switched on", p.FnName(fn), nth)
+				if gatedAt(ins, 0) {
+					r.OkNT(key, p.Pos(ins.Pos()), "under the test of the optimizer switch (directly or in every caller)")
+				} else {
+					r.Fail(key, p.Pos(ins.Pos()), "the optimizer is entered on a path that does not depend on the optimizer switch: with NoOptimize the bytecode — of the main program or of a function body — is rewritten all the same, so `Prepare(NoOptimize)` and `-no-optimizer` do not give the program as it was compiled")
+				}
+			}
+		}
+	}
+	if n == 0 {
+		r.Undecided("optimizer entries", "-", "no call into the optimizer found outside the optimizer")
+	}
+}
+
+// optimizerSwitchName: the name of the variable whose presence switches the
+// optimizer on: the constant name that the machine's constructor asks the
+// environment for and whose test guards a call (the one Prepare sets).
+func optimizerSwitchName(p *Program, a *anchors) string {
+	names := map[string]int{}
+	if a.prepare != nil {
+		seen := map[*ssa.Function]bool{}
+		var scan func(f *ssa.Function, d int)
+		scan = func(f *ssa.Function, d int) {
+			if f == nil || seen[f] || d > 2 || len(f.Blocks) == 0 {
+				return
+			}
+			seen[f] = true
+			for _, b := range f.Blocks {
+				for _, ins := range b.Instrs {
+					cc := callOf(ins)
+					if cc == nil || cc.StaticCallee() == nil {
+						continue
+					}
+					cal := cc.StaticCallee()
+					if recvNamed(cal, "environment", "Environment") && cal.Name() == "Set" {
+						for _, arg := range cc.Args {
+							if k, ok := arg.(*ssa.Const); ok && k.Value != nil && k.Value.Kind() == constant.String {
+								names[constant.StringVal(k.Value)]++
+							}
+						}
+					}
+					if fnPkg(cal) != nil && fnPkg(cal).Pkg.Path() == Mod && cal != a.compile {
+						scan(cal, d+1)
+					}
+				}
+			}
+		}
+		scan(a.prepare, 0)
+	}
+	best := ""
+	for nm := range names {
+		if best == "" || nm < best {
+			best = nm
+		}
+	}
+	if len(names) == 1 {
+		return best
+	}
+	// several: the one the constructor asks for
+	if a.vmNew != nil {
+		for _, b := range a.vmNew.Blocks {
+			for _, ins := range b.Instrs {
+				if cc := callOf(ins); cc != nil && cc.StaticCallee() != nil && recvNamed(cc.StaticCallee(), "environment", "Environment") {
+					for _, arg := range cc.Args {
+						if k, ok := arg.(*ssa.Const); ok && k.Value != nil && k.Value.Kind() == constant.String && names[constant.StringVal(k.Value)] > 0 {
+							return constant.StringVal(k.Value)
+						}
+					}
+				}
+			}
+		}
+	}
+	return best
+}
+
+// switchCarried: the condition is a parameter (or a conjunction with one)
+// for which every caller passes the switch test.
+func switchCarried(p *Program, v ssa.Value, isTest func(ssa.Value) bool, depth int) bool {
+	if depth > 3 {
+		return false
+	}
+	switch x := v.(type) {
+	case *ssa.Parameter:
+		fn := x.Parent()
+		k := -1
+		for i, q := range fn.Params {
+			if q == x {
+				k = i
+			}
+		}
+		sites := staticCallSites(p, fn)
+		if k < 0 || len(sites) == 0 {
+			return false
+		}
+		for _, s := range sites {
+			args := s.Common().Args
+			if k >= len(args) || !(isTest(args[k]) || switchCarried(p, args[k], isTest, depth+1)) {
+				return false
+			}
+		}
+		return true
+	case *ssa.Phi:
+		// a && b: false on one edge, b on the other — true only if b is
+		for _, e := range x.Edges {
+			if k, ok := e.(*ssa.Const); ok && k.Value != nil && k.Value.Kind() == constant.Bool && !constant.BoolVal(k.Value) {
+				continue
+			}
+			if !(isTest(e) || switchCarried(p, e, isTest, depth+1)) {
+				return false
+			}
+		}
+		return len(x.Edges) > 0
+	case *ssa.UnOp:
+		// a load of a field that is only ever stored the switch test
+		if x.Op == token.MUL {
+			if fa, ok := x.X.(*ssa.FieldAddr); ok {
+				owner, f, ok := fieldOf(fa)
+				if !ok {
+					return false
+				}
+				n := 0
+				for _, fn := range p.LibFns {
+					for _, b := range fn.Blocks {
+						for _, ins := range b.Instrs {
+							if st, ok := ins.(*ssa.Store); ok {
+								if o2, f2, ok := fieldOf(st.Addr); ok && o2 == owner && f2 == f {
+									n++
+									if !(isTest(st.Val) || switchCarried(p, st.Val, isTest, depth+1)) {
+										return false
+									}
+								}
+							}
+						}
+					}
+				}
+				return n > 0
+			}
+		}
+	}
+	return false
 }
